@@ -129,6 +129,8 @@ pub fn case_end() {
 /// having burned CPU for most of that time, this is reported as a violation
 /// (spin) of that property; otherwise the run ends inconclusive (exit 3).
 pub fn start_watchdog(limit: Duration, spin_prop: Option<&'static str>) {
+    // instrumented builds (the ASan replay) run several times slower
+    let limit = limit * std::env::var("VERIF_WATCHDOG_SCALE").ok().and_then(|s| s.parse::<u32>().ok()).unwrap_or(1).max(1);
     std::thread::spawn(move || {
         loop {
             std::thread::sleep(Duration::from_millis(500));
